@@ -66,6 +66,7 @@ def check(ctx):
     check_sentinel(ctx)
     check_taxonomy_last(ctx)
     check_every_chunk_counted(ctx)
+    check_same_gene_order(ctx)
     from .C05 import check_tiles
     check_tiles(ctx, ('diff_exp.precompute_from_anndata',
                       'diff_exp.precompute_utils'), floor=1)
@@ -298,6 +299,59 @@ def check_merge_loops(ctx):
                    f'an iteration of `{n.text()}` can skip the update of '
                    f'`{target}`: that statistic is dropped for some key',
                    witness=wit)
+    # each piece is added exactly once: where the table for a key is
+    # created inside the merge loop and the `+=` of the same iteration
+    # still follows, the initial value must not already contain the piece
+    # (zeros of its shape are fine, a copy of its data is counted twice)
+    fi = db.fn(stage)
+    for lp in merge_loops:
+        tvars = {x.id for x in ast.walk(lp.target)
+                 if isinstance(x, ast.Name)}
+        augs = [s_ for s_ in ast.walk(lp) if isinstance(s_, ast.AugAssign)
+                and isinstance(s_.op, ast.Add)
+                and isinstance(s_.target, ast.Subscript)
+                and _mentions(s_.target, tvars)]
+        srcs = set()
+        for a_ in augs:
+            srcs |= {_base(x) for x in ast.walk(a_.value)
+                     if isinstance(x, ast.Subscript)}
+        srcs.discard(None)
+        # the table may be created by a sibling loop of the same outer
+        # iteration (`if table is None: for k: table[k] = ...`)
+        outer = getattr(lp, '_parent', None)
+        while outer is not None and not isinstance(
+                outer, (ast.For, ast.FunctionDef)):
+            outer = getattr(outer, '_parent', None)
+        scope = outer if isinstance(outer, ast.For) else lp
+        inits = [s_ for s_ in ast.walk(scope) if isinstance(s_, ast.Assign)
+                 and isinstance(s_.targets[0], ast.Subscript)
+                 and _base(s_.targets[0]) in {_base(a_.target)
+                                              for a_ in augs}]
+        for k_, st in enumerate(inits):
+            reads = False
+            for x in ast.walk(st.value):
+                if isinstance(x, ast.Subscript) and _base(x) in srcs:
+                    par = getattr(x, '_parent', None)
+                    # src[k].shape / .dtype describe the piece; anything
+                    # else reads its data
+                    top = x
+                    while isinstance(getattr(top, '_parent', None),
+                                     ast.Subscript) and getattr(
+                                         top, '_parent').value is top:
+                        top = top._parent
+                    par = getattr(top, '_parent', None)
+                    if not (isinstance(par, ast.Attribute)
+                            and par.attr in ('shape', 'dtype', 'ndim',
+                                             'size')):
+                        reads = True
+            ctx.ob('R-AXIS/additive-statistic/merge-init',
+                   f'{fi.qual}:init#{k_}', fi.loc(st), not reads,
+                   'the table starts from zeros of the piece\'s shape'
+                   if not reads else
+                   f'`{unparse(st)[:60]}` starts the table from the data '
+                   'of the first piece, and the `+=` of the same iteration '
+                   'adds that piece again: the first worker\'s cells are '
+                   'counted twice')
     # the worker buffers are combined over all buffer files: the loop
     # around the accumulation iterates the list the dispatch loop
     # appended to (its order is a C04 matter)
@@ -647,3 +701,63 @@ def check_every_chunk_counted(ctx):
                    'n_cells / sum / sumsq / gt0 / gt1 / ge1, so the result '
                    'depends on rows_at_a_time, on file boundaries and on '
                    'the split between workers')
+
+
+def check_same_gene_order(ctx):
+    """the sums of all reference files are accumulated column by column
+    under the gene order of the first file: a file whose var index lists
+    the genes in another order must be refused.  The refusal compares the
+    two name *sequences*; a comparison of sets (or sorted copies, or
+    lengths) lets a permuted file through, and its counts are added under
+    the wrong genes."""
+    from ..core.slicing import backward_slice
+    db = ctx.db
+    fi = db.fn('diff_exp.precompute_from_anndata:'
+               '_precompute_summary_stats_from_h5ad_and_lookup')
+    ctx.touch(fi)
+    cfg = cfg_of(fi)
+    rd = rd_of(fi)
+    rule = 'R-GUARD/same-gene-order'
+    guards = []
+    for n in cfg.nodes:
+        if n.kind != 'if' or n.id not in rd.live:
+            continue
+        sl = backward_slice(fi, n.ast.test, n.id)
+        if not (sl.has_call('read_df_from_h5ad') and 'var' in sl.consts):
+            continue
+        raises = False
+        for (t, lab) in cfg.succ[n.id]:
+            if lab == 'true':
+                okp, _p = cfg.must_pass(
+                    t, {cfg.exit}, lambda x: x.kind == 'raise',
+                    edge_ok=lambda a, b, l2: l2 != 'exc')
+                raises = okp or cfg.nodes[t].kind == 'raise'
+        if raises:
+            guards.append(n)
+    if not guards:
+        ctx.fail(rule, f'{fi.qual}:guard', fi.loc(),
+                 'no raising comparison of the gene names of the '
+                 'reference files was found')
+        return
+    for k, g in enumerate(guards):
+        t = g.ast.test
+        ok = isinstance(t, ast.Compare) and len(t.ops) == 1 and isinstance(
+            t.ops[0], (ast.NotEq, ast.Eq))
+        weak = None
+        if ok:
+            for side in [t.left] + list(t.comparators):
+                if isinstance(side, ast.Call):
+                    nm = side.func.id if isinstance(
+                        side.func, ast.Name) else getattr(
+                            side.func, 'attr', '')
+                    if nm in ('set', 'frozenset', 'sorted', 'len',
+                              'Counter'):
+                        weak = nm
+        ok = ok and weak is None
+        ctx.ob(rule, f'{fi.qual}:guard#{k}', fi.loc(g.ast), ok,
+               'files whose gene names differ in content or order are '
+               'refused' if ok else
+               f'`{unparse(t)[:70]}` compares the gene names through '
+               f'`{weak or "an order-insensitive form"}`: a file listing '
+               'the same genes in another order is accepted and its '
+               'columns are added under the wrong genes')
